@@ -1,6 +1,7 @@
 package checks
 
 import (
+	"math"
 	"testing"
 
 	"github.com/sahandsafizadeh/qeep/component/metrics"
@@ -59,6 +60,9 @@ func onesOf(shape []int) tensor.Tensor {
 type C19Case struct {
 	Steps []AccStep `json:"steps"`
 	Cuts  []int     `json:"cuts"`
+	// Other: a second Accuracy object (constructed before (1) or after (2) the checked one)
+	// accumulates a batch of its own - two of three positions match - before every step
+	Other int `json:"other,omitempty"`
 }
 
 func init() { register("C19/accuracy", checkC19) }
@@ -66,8 +70,11 @@ func init() { register("C19/accuracy", checkC19) }
 func genC19(t *rapid.T) C19Case {
 	var c C19Case
 	alphabet := []float64{0, 1, 2, 3}
-	if rapid.IntRange(0, 3).Draw(t, "floats") == 0 {
+	switch rapid.IntRange(0, 4).Draw(t, "floats") {
+	case 0:
 		alphabet = []float64{-1.5, 0.25, 1e-3, 2e-3, 7, 1e6}
+	case 1: // both zeros (they are equal), labels of either sign
+		alphabet = []float64{0, math.Copysign(0, -1), 1, -1}
 	}
 	n := rapid.IntRange(0, 12).Draw(t, "nsteps")
 	total := 0
@@ -112,6 +119,9 @@ func genC19(t *rapid.T) C19Case {
 			c.Steps = append(c.Steps, AccStep{Kind: "result"})
 		}
 	}
+	if rapid.IntRange(0, 2).Draw(t, "otherobject") == 0 {
+		c.Other = rapid.IntRange(1, 2).Draw(t, "otherwhen")
+	}
 	for pos := 0; pos < total; {
 		pos += rapid.IntRange(1, 9).Draw(t, "cut")
 		c.Cuts = append(c.Cuts, pos)
@@ -122,7 +132,15 @@ func genC19(t *rapid.T) C19Case {
 func vec(v []float64) tensor.Tensor { return lib.MustNew([]int{len(v)}, v, false) }
 
 func checkC19(c C19Case) *Failure {
+	var other *metrics.Accuracy
+	if c.Other == 1 {
+		other = metrics.NewAccuracy()
+	}
 	acc := metrics.NewAccuracy()
+	if c.Other == 2 {
+		other = metrics.NewAccuracy()
+	}
+	otherCalls := 0
 	matched, total := 0, 0
 	var allP, allT []float64
 	expect := func() float64 {
@@ -150,6 +168,15 @@ func checkC19(c C19Case) *Failure {
 	sizes := map[int]bool{}
 	accepted, rejected, rejectedBetween := 0, 0, false
 	for si, st := range c.Steps {
+		if other != nil {
+			if err := other.Accumulate(vec([]float64{1, 2, 3}), vec([]float64{1, 5, 3})); err != nil {
+				return failf("step %d: a second Accuracy object rejected a valid batch: %v", si, err)
+			}
+			otherCalls++
+			if r, err := other.Result(); err != nil || r != 2.0/3.0 {
+				return failf("step %d: a second Accuracy object that saw %d batches with 2 of 3 matches reports %v (%v)", si, otherCalls, r, err)
+			}
+		}
 		switch st.Kind {
 		case "acc":
 			if len(st.P) == 0 || len(st.P) != len(st.T) {
@@ -250,6 +277,9 @@ func checkC19(c C19Case) *Failure {
 		return failf("Result depends on the batch split: %v vs %v after re-partitioning (%v)", r1, r2, err)
 	}
 	evid.Eval()
+	if other != nil && otherCalls > 0 {
+		evid.Class("C19.second_object_in_use")
+	}
 	evid.ClassN("C19.accepted_batches", accepted)
 	evid.ClassN("C19.rejected_calls", rejected)
 	if len(sizes) >= 2 && rejectedBetween {
